@@ -532,8 +532,19 @@ struct RealReplayFile {
     shape: (usize, usize),
     class: String,
     detail: String,
+    /// 0 = drawn, 1 = forced split, 2 = non-native asset (see real::run_real)
     #[serde(default)]
-    forced_split: bool,
+    plan: u8,
+}
+
+fn plan_of(run: u64, shapes: usize) -> u8 {
+    if (run as usize) < shapes {
+        1
+    } else if run as usize == shapes {
+        2
+    } else {
+        0
+    }
 }
 
 fn real_main(property: &str, seed: u64, tier: Tier, replay: Option<String>, runs_override: Option<u64>, dump: bool) -> i32 {
@@ -565,7 +576,7 @@ fn real_main(property: &str, seed: u64, tier: Tier, replay: Option<String>, runs
     };
     println!("artifacts for {:?} built at {:.1}s", shapes, (qpz_core::real_now_ns() - t0) as f64 / 1e9);
     if let Some(rf) = &replay_file {
-        let out = real::run_real(&arts[0], rf.run_seed, c18, c36, rf.forced_split);
+        let out = real::run_real(&arts[0], rf.run_seed, c18, c36, rf.plan);
         for l in &out.log {
             println!("  {l}");
         }
@@ -589,9 +600,10 @@ fn real_main(property: &str, seed: u64, tier: Tier, replay: Option<String>, runs
         |_, run| {
             let rseed = mix(pseed, run);
             let ai = (run as usize) % arts.len();
-            // the first run of every shape uses the forced split (padding at both layers)
-            let forced = (run as usize) < arts.len();
-            let out = real::run_real(&arts[ai], rseed, c18, c36, forced);
+            // the first run of every shape uses the forced split (padding at both layers), the next
+            // one of the first shape a non-native asset (full private batches only); the rest is drawn
+            let plan = plan_of(run, arts.len());
+            let out = real::run_real(&arts[ai], rseed, c18, c36, plan);
             (rseed, ai, out)
         },
         |(_, _, out)| out.findings.iter().any(|f| f.class.starts_with(prefix)),
@@ -643,7 +655,7 @@ fn real_main(property: &str, seed: u64, tier: Tier, replay: Option<String>, runs
     let mut exit = EXIT_OK;
     let mut replay_path = String::new();
     if let Some((rseed, ai, f)) = &first {
-        let rf = RealReplayFile { property: property.into(), sim: "pool".into(), mode: "real".into(), seed, run_seed: *rseed, shape: shapes[*ai], class: f.class.clone(), detail: f.detail.clone(), forced_split: results.iter().any(|(run, (s, _, _))| s == rseed && (*run as usize) < arts.len()) };
+        let rf = RealReplayFile { property: property.into(), sim: "pool".into(), mode: "real".into(), seed, run_seed: *rseed, shape: shapes[*ai], class: f.class.clone(), detail: f.detail.clone(), plan: results.iter().find(|(_, (s, _, _))| s == rseed).map(|(run, _)| plan_of(*run, arts.len())).unwrap_or(0) };
         replay_path = format!("{}/{property}-{rseed}.json", qpz_core::replay_dir());
         std::fs::write(&replay_path, serde_json::to_string_pretty(&rf).unwrap()).unwrap();
         println!("violation class={} seed={rseed} shape={:?}: {}", f.class, shapes[*ai], f.detail);
